@@ -138,7 +138,7 @@ def run(ctx):
         if v:
             cex.append({'key': 'c13:' + inputs[4 * i + 1][0].replace('\n', ' '), 'what': v,
                         'input': {'rules': p, 'formula': f, 'wpart': w, 'H': H, 'program': inputs[4 * i][0], 'observer_program': inputs[4 * i + 1][0]}})
-        elif 'ok' in rs[0] and any(rs[2]['ok'][h] and rs[3]['ok'][h] for h in rs[0]['ok']):
+        elif all('ok' in r for r in rs) and any(rs[2]['ok'][h] and rs[3]['ok'][h] for h in rs[0]['ok']):
             nontriv.add(inputs[4 * i + 1][0])
     # shipped examples without show statements interfering: observer over their own atoms is covered in C09/C17; here a fixed small one
     rinputs, rmeta = [], []
